@@ -62,10 +62,11 @@ Theorem C20_arity_spec : forall sg npos kws, arity_ok sg npos kws = true <-> Ari
 Proof. exact arity_ok_iff. Qed.
 Print Assumptions C20_arity_spec.
 
-(* dynamic half, the judge's predicate: nothing mutated and every re-presentation gives the base result, bit for bit *)
+(* dynamic half, the judge's predicate: nothing mutated, no NameError / AttributeError / arity TypeError on a valid input,
+   and every re-presentation or re-execution gives the base result, bit for bit *)
 Theorem C20_dyn_judge_spec : forall t0 u0 r0 rest,
   dyn_holds ((t0, u0, r0) :: rest) = 0 <->
-  Forall (fun tur => snd (fst tur) = true /\ snd tur = r0) ((t0, u0, r0) :: rest).
+  Forall (fun tur => snd (fst tur) = true /\ link_exc (snd tur) = false /\ snd tur = r0) ((t0, u0, r0) :: rest).
 Proof. exact dyn_holds_spec. Qed.
 Print Assumptions C20_dyn_judge_spec.
 
@@ -97,5 +98,6 @@ Example C20_example :
     = [(128, 1); (117, 2); (831, 3)] /\
   check_program_w [("pkg.eval", "legacy", 3)] (ex_prog "_ccw" "ema_linear" 3) = true /\
   dyn_holds [(0, true, [1; 2]%Z); (2, true, [1; 2]%Z)] = 0 /\ dyn_holds [(0, true, [1; 2]%Z); (2, true, [1; 3]%Z)] = 2 /\
-  dyn_holds [(0, true, [1]%Z); (3, false, [1]%Z)] = 23.
+  dyn_holds [(0, true, [1]%Z); (3, false, [1]%Z)] = 23 /\
+  dyn_holds [(0, true, [7; 1; 6]%Z); (2, true, [7; 1; 6]%Z)] = 40 /\ dyn_holds [(0, true, [7; 0; 6]%Z); (1, true, [7; 0; 6]%Z)] = 0.
 Proof. vm_compute. repeat split; reflexivity. Qed.
